@@ -5,6 +5,8 @@ package main
 // cross products + exact squared segment distance), on the full grid
 //   {vertex xs, quadtree split-line xs, box xs, far} x {vertex ys, split-line ys, box ys, far}
 // plus random points.  Model: coq/Sdf/Poly.v (cases evaluated by coq/Sdf/C04Corr.v).
+// Since "fix: Box2.lineIntersect clips by coordinates" no polygon is outside the claimed class:
+// vertices and edges on, 1..3 ulp and 1e-12..1e-7 next to split lines are generated in every tier.
 
 import (
 	"encoding/json"
@@ -32,7 +34,7 @@ type corpusPoly struct {
 	Name   string       `json:"name"`
 	V      [][2]float64 `json:"v"`
 	Points [][2]float64 `json:"points"`      // replayed in addition to the grid
-	Only   bool         `json:"only_points"` // evaluate the listed points only (inputs of known findings: a fixed key set)
+	Only   bool         `json:"only_points"` // evaluate the listed points only (a fixed key set)
 }
 
 type corpusFile struct {
@@ -302,8 +304,7 @@ func genPolys(rng *Rng, tier string) []poly {
 			add("rectilinear/dyadic", fmt.Sprintf("skyline%d%s", j, tag), xform(sk, 0.25, rng.Dyadic(8, 2), rng.Dyadic(8, 2)), false)
 			add("rectilinear/irrational", fmt.Sprintf("skyline%d%s*sqrt2", j, tag), xform(sk, math.Sqrt2/3, -math.Pi, math.E), false)
 		}
-		// (fixed shapes none of whose vertices is within the clipping tolerance of a split line:
-		// the exact, tolerance 0, winding certificate must hold on their quadtrees)
+		// (fixed axis-parallel shapes: the exact, tolerance 0, winding certificate must hold on their quadtrees)
 		add("rectilinear/square", "square"+tag, []v2.Vec{{X: -1, Y: -1}, {X: 1, Y: -1}, {X: 1, Y: 1}, {X: -1, Y: 1}}, true)
 		add("rectilinear/square-collinear", "square8"+tag, []v2.Vec{{X: -1, Y: -1}, {X: 0, Y: -1}, {X: 1, Y: -1}, {X: 1, Y: 0}, {X: 1, Y: 1}, {X: 0, Y: 1}, {X: -1, Y: 1}, {X: -1, Y: 0}}, false)
 		add("rectilinear/L", "L"+tag, []v2.Vec{{X: 0, Y: 0}, {X: 4, Y: 0}, {X: 4, Y: 1}, {X: 1, Y: 1}, {X: 1, Y: 3}, {X: 0, Y: 3}}, true)
@@ -411,6 +412,173 @@ func genPolys(rng *Rng, tier string) []poly {
 				v = reverse(v)
 			}
 			ps = append(ps, poly{name: fmt.Sprintf("facets%d(r=%g)%s", f.n, f.r, tag), family: "scale/many-short-edges", v: v, light: true, noCoq: quick || f.n > 800})
+		}
+	}
+	return ps
+}
+
+// ---------------------------------------------------------------- vertices and edges NEXT TO split lines
+
+func nudge(rng *Rng, c float64) float64 {
+	offsets := []float64{0, 1e-10, -1e-10, 5e-10, -5e-10, 9.9e-10, -9.9e-10, 1e-9, -1e-9, 2e-9, -2e-9, 1e-7, -1e-7, 1e-12, -1e-12}
+	sel := rng.Intn(4)
+	if math.Abs(c) < 1e-100 && sel == 0 {
+		sel = 1 // no denormals: a piece shorter than 1e-154 has no unit vector (in Mesh2DSlow too)
+	}
+	switch sel {
+	case 0: // ulps
+		for k := rng.Range(-3, 3); k != 0; {
+			if k > 0 {
+				c = math.Nextafter(c, math.Inf(1))
+				k--
+			} else {
+				c = math.Nextafter(c, math.Inf(-1))
+				k++
+			}
+		}
+		return c
+	case 1:
+		return c + offsets[rng.Intn(len(offsets))]
+	case 2: // relative offsets
+		return c * (1 + float64(rng.Range(-2, 2))*1e-15*float64(rng.Intn(1000)))
+	}
+	return c
+}
+
+func clampF(c, lo, hi float64) float64 { return math.Max(lo, math.Min(hi, c)) }
+
+// star shaped (hence simple) polygon in the box [x0,x1]x[y0,y1], pinned by four extreme vertices,
+// with vertices on / 1..3 ulp / 1e-12 .. 1e-7 next to split lines and crossings of split lines
+func nearSplitStar(rng *Rng, x0, x1, y0, y1 float64, n int) []v2.Vec {
+	lx, ly := splitLines(x0, x1, y0, y1)
+	cx, cy := (x0+x1)/2, (y0+y1)/2
+	type av struct {
+		a float64
+		p v2.Vec
+	}
+	var vs []av
+	add := func(p v2.Vec) { vs = append(vs, av{math.Atan2(p.Y-cy, p.X-cx), p}) }
+	add(v2.Vec{X: x0, Y: rng.Uniform(y0, y1)})
+	add(v2.Vec{X: x1, Y: rng.Uniform(y0, y1)})
+	add(v2.Vec{X: rng.Uniform(x0, x1), Y: y0})
+	add(v2.Vec{X: rng.Uniform(x0, x1), Y: y1})
+	for i := 0; i < n; i++ {
+		var p v2.Vec
+		switch rng.Intn(6) {
+		case 0:
+			p = v2.Vec{X: nudge(rng, lx[rng.Intn(len(lx))]), Y: rng.Uniform(y0, y1)}
+		case 1:
+			p = v2.Vec{X: rng.Uniform(x0, x1), Y: nudge(rng, ly[rng.Intn(len(ly))])}
+		case 2, 3:
+			p = v2.Vec{X: nudge(rng, lx[rng.Intn(len(lx))]), Y: nudge(rng, ly[rng.Intn(len(ly))])}
+		default:
+			p = v2.Vec{X: rng.Uniform(x0, x1), Y: rng.Uniform(y0, y1)}
+		}
+		add(v2.Vec{X: clampF(p.X, x0, x1), Y: clampF(p.Y, y0, y1)})
+	}
+	sort.Slice(vs, func(i, j int) bool { return vs[i].a < vs[j].a })
+	var out []v2.Vec
+	for i, v := range vs {
+		if i > 0 && (v.a-vs[i-1].a < 1e-9 || v.p == out[len(out)-1]) {
+			continue // one vertex per direction
+		}
+		out = append(out, v.p)
+	}
+	return out
+}
+
+// staircase whose risers and treads lie on / next to the split lines of every level
+func nearSplitStairs(rng *Rng, x0, x1, y0, y1 float64) []v2.Vec {
+	lx, ly := splitLines(x0, x1, y0, y1)
+	m := len(lx)
+	if len(ly) < m {
+		m = len(ly)
+	}
+	v := []v2.Vec{{X: x0, Y: y0}, {X: x1, Y: y0}, {X: x1, Y: y1}}
+	cur := y1
+	for i := m - 1; i >= 0; i-- {
+		x, y := nudge(rng, lx[i]), nudge(rng, ly[i])
+		if !(y < cur) || !(x > x0) || !(x < v[len(v)-1].X) {
+			continue
+		}
+		v = append(v, v2.Vec{X: x, Y: cur}, v2.Vec{X: x, Y: y})
+		cur = y
+	}
+	return append(v, v2.Vec{X: x0, Y: cur})
+}
+
+// closed polyline (NOT necessarily simple: the specification is the crossing number) whose vertices are
+// lattice points of the split lines and box edges, moved by 0..3 ulp: edges along and next to split
+// lines, nearly horizontal / vertical edges crossing many cells, edges through box corners
+func latticeLoop(rng *Rng, x0, x1, y0, y1 float64, n int) []v2.Vec {
+	lx, ly := splitLines(x0, x1, y0, y1)
+	lx, ly = append(lx, x0, x1), append(ly, y0, y1)
+	ul := func(c float64) float64 {
+		k := 0
+		if rng.Intn(3) == 0 {
+			k = rng.Range(-3, 3)
+		}
+		if math.Abs(c) < 1e-100 {
+			return c + float64(k)*1e-17
+		}
+		for ; k > 0; k-- {
+			c = math.Nextafter(c, math.Inf(1))
+		}
+		for ; k < 0; k++ {
+			c = math.Nextafter(c, math.Inf(-1))
+		}
+		return c
+	}
+	v := []v2.Vec{{X: x0, Y: y0}, {X: x1, Y: y1}}
+	for i := 0; i < n; i++ {
+		p := v2.Vec{X: rng.Uniform(x0, x1), Y: rng.Uniform(y0, y1)}
+		if rng.Intn(5) != 0 {
+			p = v2.Vec{X: clampF(ul(lx[rng.Intn(len(lx))]), x0, x1), Y: clampF(ul(ly[rng.Intn(len(ly))]), y0, y1)}
+		}
+		if p != v[len(v)-1] && p != v[0] {
+			v = append(v, p)
+		}
+	}
+	return v
+}
+
+// the outline of examples/bezier egg1 and relatives: Bezier.Polygon puts vertices at dyadic curve
+// parameters, for these heights a few ulp next to the centre lines of the quadtree
+func egg(h0, h1, ht float64) []v2.Vec {
+	b := sdf.NewBezier()
+	b.Add(0, 0).HandleFwd(sdf.DtoR(0), h0)
+	b.Add(0, ht).HandleRev(sdf.DtoR(0), h1)
+	b.Close()
+	p, err := b.Polygon()
+	if err != nil {
+		panic(err)
+	}
+	return dedup(p.Vertices())
+}
+
+func genNearSplit(rng *Rng, tier string) []poly {
+	var ps []poly
+	boxes := [][4]float64{{-2, 2, -2, 2}, {0, 200, 0, 200}, {-3, 5, 10, 18}, {0.1, 0.1 + math.Pi, -7, -7 + math.Pi}, {0, 5.767822265625, 0, 16},
+		{-1e-3, 2e-3, 0, 1e-3}, {1e5, 3e5, -2e5, 1e5}, {0, 1000, 0, 700}}
+	n := TierN(tier, 3, 24, 12)
+	for j := 0; j < n; j++ {
+		b := boxes[rng.Intn(len(boxes))]
+		ps = append(ps, poly{name: fmt.Sprintf("nearsplit-star#%d", j), family: "nearsplit/star", v: nearSplitStar(rng, b[0], b[1], b[2], b[3], rng.Range(3, 30)), light: true})
+		b = boxes[rng.Intn(len(boxes))]
+		ps = append(ps, poly{name: fmt.Sprintf("nearsplit-stairs#%d", j), family: "nearsplit/stairs", v: nearSplitStairs(rng, b[0], b[1], b[2], b[3]), light: true})
+		b = boxes[rng.Intn(len(boxes))]
+		ps = append(ps, poly{name: fmt.Sprintf("nearsplit-lattice#%d", j), family: "nearsplit/lattice-loop", v: latticeLoop(rng, b[0], b[1], b[2], b[3], rng.Range(3, 24)), light: true})
+		b = boxes[rng.Intn(3)]
+		k := math.Pow(10, float64(rng.Range(-6, 6))) * rng.Uniform(1, 2)
+		ps = append(ps, poly{name: fmt.Sprintf("nearsplit-scaled#%d*%.3g", j, k), family: "nearsplit/scaled", v: xform(nearSplitStar(rng, b[0], b[1], b[2], b[3], rng.Range(3, 16)), k, 0, 0), light: true})
+		if j%3 == 0 {
+			ps = append(ps, poly{name: fmt.Sprintf("egg#%d", j), family: "nearsplit/bezier-egg", v: egg(rng.Uniform(1, 13), rng.Uniform(1, 9), 4*float64(rng.Range(1, 6))), light: true})
+		}
+	}
+	for i := range ps {
+		if i%2 == 1 {
+			ps[i].v = reverse(ps[i].v)
+			ps[i].family += "/cw"
 		}
 	}
 	return ps
@@ -594,47 +762,59 @@ func walk(n *sdf.VerifQtNode, ti *treeInfo) {
 	}
 }
 
-// assign every piece to the original segment it was clipped from (hint for the certificate checker;
-// untrusted: the checker verifies the chains)
+// assign every piece to the original segment it was clipped from, in chain order (hint for the
+// certificate checker; untrusted: the checker verifies the chains).  The pieces of a segment join
+// in bit-identical points, so each chain is found by following the joints from the start vertex;
+// where several unused pieces start in the same point the one closest to the segment is taken.
 func chains(lines []*sdf.Line2, pieces []sdf.Line2) ([][]sdf.Line2, string) {
-	type tp struct {
-		t float64
-		l sdf.Line2
+	byStart := map[v2.Vec][]int{}
+	for i, pc := range pieces {
+		byStart[pc[0]] = append(byStart[pc[0]], i)
 	}
-	per := make([][]tp, len(lines))
-	for _, pc := range pieces {
-		best, bestDev, bestT := -1, math.Inf(1), 0.0
-		for i, l := range lines {
-			vx, vy := l[1].X-l[0].X, l[1].Y-l[0].Y
-			vv := vx*vx + vy*vy
-			dev := 0.0
-			var ts [2]float64
-			for k := 0; k < 2; k++ {
-				wx, wy := pc[k].X-l[0].X, pc[k].Y-l[0].Y
-				t := (wx*vx + wy*vy) / vv
-				tc := math.Max(0, math.Min(1, t))
-				ex, ey := wx-tc*vx, wy-tc*vy
-				dev += ex*ex + ey*ey
-				ts[k] = t
-			}
-			// direction must agree
-			if ts[1] <= ts[0] {
-				continue
-			}
-			if dev < bestDev {
-				best, bestDev, bestT = i, dev, ts[0]
-			}
-		}
-		if best < 0 {
-			return nil, fmt.Sprintf("piece %v belongs to no segment", pc)
-		}
-		per[best] = append(per[best], tp{bestT, pc})
-	}
+	used := make([]bool, len(pieces))
 	out := make([][]sdf.Line2, len(lines))
-	for i := range per {
-		sort.SliceStable(per[i], func(a, b int) bool { return per[i][a].t < per[i][b].t })
-		for _, x := range per[i] {
-			out[i] = append(out[i], x.l)
+	for i, l := range lines {
+		vx, vy := l[1].X-l[0].X, l[1].Y-l[0].Y
+		vv := vx*vx + vy*vy
+		cur := l[0]
+		for steps := 0; ; steps++ {
+			best, bestDev := -1, math.Inf(1)
+			for _, j := range byStart[cur] {
+				if used[j] {
+					continue
+				}
+				e := pieces[j][1]
+				wx, wy := e.X-l[0].X, e.Y-l[0].Y
+				k := vx*wy - vy*wx
+				dev := k * k / vv
+				// the piece runs in the direction of the segment and does not leave its bounding box
+				if (e.X-cur.X)*vx+(e.Y-cur.Y)*vy <= 0 {
+					continue
+				}
+				if e.X < math.Min(l[0].X, l[1].X) || e.X > math.Max(l[0].X, l[1].X) || e.Y < math.Min(l[0].Y, l[1].Y) || e.Y > math.Max(l[0].Y, l[1].Y) {
+					continue
+				}
+				if dev < bestDev {
+					best, bestDev = j, dev
+				}
+			}
+			if best < 0 {
+				return nil, fmt.Sprintf("the pieces of segment %v do not chain up: no piece starts at %v", *l, cur)
+			}
+			used[best] = true
+			out[i] = append(out[i], pieces[best])
+			cur = pieces[best][1]
+			if cur == l[1] {
+				break
+			}
+			if steps > len(pieces) {
+				return nil, fmt.Sprintf("the pieces of segment %v do not chain up", *l)
+			}
+		}
+	}
+	for j, u := range used {
+		if !u {
+			return nil, fmt.Sprintf("piece %v belongs to no segment", pieces[j])
 		}
 	}
 	return out, ""
@@ -689,6 +869,7 @@ func check(c *Ctx, r *Report) error {
 		polys = append(polys, p)
 	}
 	polys = append(polys, genPolys(rng, c.Tier)...)
+	polys = append(polys, genNearSplit(rng, c.Tier)...)
 
 	gridCap := TierN(c.Tier, 30000, 150000, 120000)
 	nRandom := TierN(c.Tier, 1500, 10000, 6000)
@@ -936,9 +1117,6 @@ func check(c *Ctx, r *Report) error {
 		if pl.exact {
 			mode = 1
 		}
-		if pl.only {
-			mode = 2 // input of a known finding
-		}
 		ctree.Add(fmt.Sprintf("(%d%%N, %d%%N, %d%%N, %s,\n %s,\n %s)", pi+1, mode, sdf.VerifQtMaxLevel, vertsTerm(pl.v), tb.String(), CList(chs)))
 
 		// ... and evaluation at sampled points (every disagreeing point included)
@@ -978,16 +1156,16 @@ func check(c *Ctx, r *Report) error {
 	r.Coverage["sign_disagreements"] = signDis
 	r.Coverage["value_disagreements"] = valDis
 	r.Coverage["clip_assignment_failures"] = certBad
-	r.Rule = "polygon families (stars incl. the two stars of the repaired defects, convex, rectilinear with collinear/horizontal/vertical edges, combs, thin, 200-gons, shapes with vertices on the quadtree centre lines and with edges lying exactly ON centre and level-2 split lines; both orientations; dyadic, irrational and far-offset coordinates; absolute scale as a dimension: shapes multiplied by 1e-6..1e-3 and 1e3..1e6, facetted outlines with 500..2000 edges of 1e-5..1e-4 length) x query points = full grid {vertex and cut-point xs, every quadtree box edge and centre x, bounding box xs, far (10 and 1e6 sizes away)} x {same for y} (rows kept, columns subsampled above the tier's cap), one ulp above/below every vertex level, random points. Oracles per point: sign(quadtree) = sign(brute force) = exact crossing-number sign (rational arithmetic; skipped only where the exact distance is <= 1e-12*scale), | |fast|-|slow| | <= 1e-12 relative + 1e-13*scale, |value| vs exact distance (1e-12 relative + 1e-12*scale). non-trivial = every case; distinct by polygon hash and exact point bits."
+	r.Rule = "polygon families (stars incl. the two stars of the earlier repaired defects, convex, rectilinear with collinear/horizontal/vertical edges, combs, thin, 200-gons, shapes with vertices on the quadtree centre lines and with edges lying exactly ON centre and level-2 split lines; both orientations; dyadic, irrational and far-offset coordinates; absolute scale as a dimension: shapes multiplied by 1e-6..1e-3 and 1e3..1e6, facetted outlines with 500..2000 edges of 1e-5..1e-4 length; NEXT TO split lines: star-shaped polygons, staircases and closed lattice loops whose vertices lie 0, +-1..3 ulp, +-1e-12 .. +-2e-9, +-1e-7 from split lines and crossings of split lines of every level, nearly axis-parallel edges crossing many cells, edges through cell corners, at scales 1e-6..1e6, Bezier eggs like examples/bezier egg1) x query points = full grid {vertex and cut-point xs, every quadtree box edge and centre x, bounding box xs, far (10 and 1e6 sizes away)} x {same for y} (rows kept, columns subsampled above the tier's cap), one ulp above/below every vertex level, random points. Oracles per point: sign(quadtree) = sign(brute force) = exact crossing-number sign (rational arithmetic; skipped only where the exact distance is <= 1e-12*scale), | |fast|-|slow| | <= 1e-12 relative + 1e-13*scale, |value| vs exact distance (1e-12 relative + 1e-12*scale). non-trivial = every case; distinct by polygon hash and exact point bits."
 	r.Trusted = append(r.Trusted,
-		"hand model coq/Sdf/Poly.v tied by differential execution at FOps: the model of Mesh2D/qtBuild/lineIntersect/tAppend/Snap rebuilds the dumped quadtree of every tested polygon bit for bit; eval_fast on the dumped tree and eval_slow on the segments reproduce Evaluate (sign exactly, value within fclose; absolute 2^-40*scale on the boundary)",
+		"hand model coq/Sdf/Poly.v tied by differential execution at FOps: the model of Mesh2D/qtBuild/lineIntersect/lineClip (math.Nextafter = C04Corr.fnextafter) rebuilds the dumped quadtree of every tested polygon bit for bit; eval_fast on the dumped tree and eval_slow on the segments reproduce Evaluate (sign exactly, value within fclose; absolute 2^-40*scale on the boundary)",
 		"quadtree dump hook sdf/verif_hooks_c04.go (copies the private fields)",
 		"the piece-to-segment assignment passed to well_clipped_check is an untrusted hint; the checker verifies it",
 		"certificate execution: chain_check/box_check/nondeg_b at exact rationals, perm_check/ray_check/owner_check (comparisons only) at primitive floats, whose comparisons are exact on finite values")
 	r.Assumptions = append(r.Assumptions,
-		"simple polygons; 'crossing number <> 0 iff enclosed' (Jordan curve theorem) is not proved: the crossing number with exact cross products is taken as the specification of inside",
-		"float64 rounding is not covered by the real-number theorems; measured on every run against exact rationals",
-		"C04_fast_eq_slow needs the certificate at tolerance 0. On dumped float trees the tolerance 0 winding certificate holds where the cut points are exact (axis-parallel edges, no vertex within 1e-9 of a split line; counted in the evidence) and is required for the fixed shapes square, L, plus; the box part never holds exactly (centre + halfSide differs from the box edge by rounding) and is checked with slack 2^-40*scale, as are interior cut points and Snap-moved vertices",
-		"polygons with a vertex within the clipping tolerance 1e-9 of a split line but not on it are outside the class where fast = slow is claimed (known finding, corpus near-split-vertex-5e-10)")
+		"closed polylines (the lattice loops need not be simple); 'crossing number <> 0 iff enclosed' (Jordan curve theorem) is not proved: the crossing number with exact cross products is taken as the specification of inside",
+		"float64 rounding is not covered by the real-number theorems (C04_mesh2d_fast_eq_slow is about the real instance, where math.Nextafter is the identity); measured on every run against exact rationals",
+		"on dumped float trees: the chains have bit-identical joints, original end points and exact ownership (perm_check, ray_check, owner_check and the end points of chain_check hold exactly on every tree); interior cut points of oblique edges lie on their segment only up to rounding and centre + halfSide differs from the box edge by rounding, so on_line and box_check run with slack 2^-40*scale (tolerance 0 is required for the fixed axis-parallel shapes square, L, plus)",
+		"pieces shorter than about 1e-154 (squared length underflows) have no unit vector, in Mesh2DSlow as well: vertices at a denormal distance from a split line are not generated")
 	return nil
 }
